@@ -99,6 +99,8 @@ class PinchProblem:
         dict
             The loaded input structure.
         """
+        self._results = None
+        self._master_zone = None
         if isinstance(source, TargetInput):
             self._problem_data = source
             return self._problem_data
